@@ -289,8 +289,9 @@ def write_evidence(pid, tier, level, coverage, assumptions, wall_s, violations=0
           "assumptions": assumptions, "wall_s": round(wall_s, 2), "violations": violations}
     if extra:
         ev.update(extra)
-    os.makedirs(os.path.join(VERIF, "evidence"), exist_ok=True)
-    path = os.path.join(VERIF, "evidence", pid + ".json")
+    evdir = os.environ.get("VERIF_EVIDENCE_DIR") or os.path.join(VERIF, "evidence")    # (seed trials write elsewhere)
+    os.makedirs(evdir, exist_ok=True)
+    path = os.path.join(evdir, pid + ".json")
     json.dump(ev, open(path, "w"), indent=1, sort_keys=True)
     return path
 
